@@ -79,7 +79,7 @@ P["C14"] = dict(level="exploration", design="DESIGN.md 7.2", assumptions=[
 SYNC = ["synchrony assumption of the protocols: honest<->honest latency <= 1 s and honest clock skew <= 3 s, private-channel time-out 3..5 s, broadcast time-out 60..90 s > 3*f*T_u + 10 s; a run in which an honest party nevertheless timed out on another honest party (drift caused by a selectively silent faulty party) is counted as excluded and not judged",
    "at most t <= (n-1)/3 faulty parties (the same t is used for the reliable broadcast, as in the test-suite): the library's own simulate_faulty_behaviour switch, silence from the start, crash after k messages, links that drop or alter messages per recipient",
    "small groups (512..768-bit p, 160..200-bit q); messages to sign are distinct within a run (the channel ID of a signing run contains the message); a Pedersen-VSS secret 0 is avoided for t = 0 (observation O2)",
-   "known findings F6/F7 (New-DKG extraction-complaint handling) are reported as KNOWN-FINDING lines, see known_findings.json"]
+   "all findings of this session are repaired (known_findings.json holds only fixed entries, which suppress nothing)"]
 P["C15"] = dict(level="exploration", design="DESIGN.md 7.3", assumptions=SYNC,
  quick=[leg("dkg","plain",2500,16,16,600), leg("dkg","asan",200,10,4,900)],
  thorough=[leg("dkg","plain",150000,16,64,600,1200), leg("dkg","asan",5000,10,16,900,600)],
